@@ -443,7 +443,18 @@ func callEntry(r *core.Run, entry int, d delivery, cpool *x509.CertPool, rootLis
 	net.Objects = map[string][]byte{SnpURL(meas): d.bytes, gcetcbendorsement.DefaultRootURL: pemOf(a.Root)}
 	switch entry {
 	case 0:
-		return verify.Endorsement(d.bytes, &verify.Options{RootsOfTrust: cpool, Now: t}), "verify.Endorsement", false
+		o := &verify.Options{RootsOfTrust: cpool, Now: t}
+		name := "verify.Endorsement"
+		if r.Chance(30, "options-carry-genuine-endorsement") {
+			// an options value built for the SEV-SNP flow and reused: its Endorsement field holds the
+			// genuine endorsement, while the bytes handed to the function are the delivery. What is
+			// accepted is the bytes.
+			gen := &epb.VMLaunchEndorsement{}
+			if proto.Unmarshal(d.base.Bytes, gen) == nil {
+				o.Endorsement, name = gen, "verify.Endorsement/options-hold-genuine"
+			}
+		}
+		return verify.Endorsement(d.bytes, o), name, false
 	case 1:
 		if !parsed {
 			return nil, "", true
